@@ -137,6 +137,7 @@ func unmapActivityProperties(mm map[string][]byte, act *Activity) error {
 }
 
 func unmapLinkProperties(mm map[string][]byte, l *Link) error {
+	var err error
 	if raw, ok := mm["id"]; ok {
 		if err := l.ID.GobDecode(raw); err != nil {
 			return err
@@ -179,6 +180,11 @@ func unmapLinkProperties(mm map[string][]byte, l *Link) error {
 	}
 	if raw, ok := mm["height"]; ok {
 		if err := gobDecodeUint(&l.Height, raw); err != nil {
+			return err
+		}
+	}
+	if raw, ok := mm["preview"]; ok {
+		if l.Preview, err = gobDecodeItem(raw); err != nil {
 			return err
 		}
 	}
